@@ -223,6 +223,31 @@ def run(facts, rep, ctx):
             rep.inconc(R4, "how a missing %s is reported was not recognised (specified %s)" % (k, v))
         else:
             rep.violation(R4, b.name, "error:" + k, "a missing %s is reported as %s (specified %s)" % (k, got.get(k), v), where)
+    # every success passes both label look-ups (an image lacking either label is an error, whatever it contains)
+    try:
+        from c04 import is_err_term as _ie
+        allp = enum_paths(b, max_paths=6000)
+        skipping = None
+        n_ok = 0
+        for p in allp:
+            if p.end != "ret" or _ie(p.ret) is not False:
+                continue
+            seen_lbl = set()
+            for e in p.events:
+                if e["k"] == "call" and e["callee"] and e["callee"].endswith("find_label_address") and len(e["args"]) > 1:
+                    a_ = strip_refs(e["args"][1])
+                    if a_[0] == "const":
+                        seen_lbl.add(a_[1])
+            if {"Count", "Info"} <= seen_lbl:
+                n_ok += 1
+            else:
+                skipping = sorted({"Count", "Info"} - seen_lbl)
+        if skipping:
+            rep.violation(R4, b.name, "ok-without-label", "arc::from_bytes can return Ok without having looked up the %s label: an image lacking it is accepted" % " / ".join(skipping), where)
+        elif n_ok:
+            rep.ok(R4, {"success_paths": n_ok, "labels_required": ["Count", "Info"]})
+    except PathLimit:
+        rep.inconc(R4, "arc::from_bytes: too many paths")
     # ---- R16.5 empty bodies ----------------------------------------------------------------------------
     R5 = rep.rule("R16.5", "a zero-length body is accepted wherever it is placed (including at the very end of the data)", floor=1)
     rb = facts.body("mila::bin_streams::BinArchiveReader::<'a>::read_bytes")
